@@ -2,16 +2,22 @@
 // lost while connections stay up and sockets stay open, one connection keeps
 // send order, and PUSH send applies back-pressure instead of discarding.
 //
-// mode "flow": 1-4 PUSH sockets x 1-4 PULL sockets (full mesh, exactly one
-//   pipe per pair at a time) over inproc/ipc/tcp, several sender threads per
-//   PUSH socket (blocking, NONBLOCK+retry, aio, aio with very short timeouts),
-//   one receiver thread per PULL socket (timed, NONBLOCK, aio).  A case is a
-//   sequence of phases: steady, SENDBUF growth, puller arrival (also from zero
-//   pullers), puller departure (socket close), pipe close on either side with
-//   redial.  Every phase ends with a drain to quiescence.  The history
-//   (send-return per tag, receive per tag with puller and pipe id) is merged at
-//   the end of the case and judged by the offline checker in check_case().
-// mode "bp": back-pressure by differential counting with no receiving peer.
+// mode "flow": 1-4 PUSH sockets x 1-4 PULL sockets (full mesh, one pipe per
+//   pair at a time, or 2-3 parallel pipes per pair in 1/4 of the cases) over
+//   inproc/ipc/tcp/ws/abstract, several sender threads per PUSH socket
+//   (blocking, NONBLOCK+retry, aio, aio with very short timeouts, window of
+//   aios of which some time out for good, aio + nng_aio_cancel + retry), one
+//   receiver thread per PULL socket (timed, NONBLOCK, aio with cancelled
+//   receives, ring of aios).  A case is a sequence of phases: steady, SENDBUF
+//   growth/shrink, puller arrival (also from zero pullers), puller departure
+//   (socket close), pipe close on either side with redial, replace; in half of
+//   the cases resizes also happen inside the arrival / departure phases.
+//   Every phase ends with a drain to quiescence.  The history (send-return
+//   per tag, receive per tag with puller and pipe id) is merged at the end of
+//   the case and judged by the offline checker in check_case().
+// mode "bp": back-pressure by differential counting with no receiving peer,
+//   and the deterministic departure scenario: a pipe of an idle puller goes
+//   away while the buffer is full and senders are blocked.
 #include "vfh.h"
 #include "core/nng_impl.h"
 #include <pthread.h>
@@ -23,7 +29,8 @@
 #define MAXPULL 12 // puller slots of one case (initial + arrivals)
 #define MAXSEND 16 // sender identities of one case
 #define MAXPHASE 8
-#define MAXPIPES 64
+#define MAXPIPES 96
+#define MAXPAR 3   // parallel pipes between one PUSH and one PULL socket
 
 static const char *
 ename(int rv)
@@ -38,6 +45,54 @@ ename(int rv)
 	case NNG_ESTOPPED: return "ESTOPPED";
 	default: return "other";
 	}
+}
+
+// transports: vfh's, plus abstract-namespace unix sockets
+enum { T_ABSTRACT = VF_T_N, T_N };
+
+static const char *
+tn(int t)
+{
+	return t == T_ABSTRACT ? "abstract" : vf_tran_names[t];
+}
+
+static void
+mk_url(int t, char *buf, size_t sz)
+{
+	static _Atomic int ctr;
+	if (t == T_ABSTRACT) {
+		snprintf(buf, sz, "abstract://vf-c06-%d-%d", (int) getpid(), atomic_fetch_add(&ctr, 1));
+	} else {
+		vf_url(t, buf, sz);
+	}
+}
+
+static int
+mk_dial_url(nng_listener l, int t, const char *listen_url, char *buf, size_t sz)
+{
+	if (t == T_ABSTRACT) {
+		snprintf(buf, sz, "%s", listen_url);
+		return 0;
+	}
+	return vf_dial_url(l, t, listen_url, buf, sz);
+}
+
+// a listens, b dials; returns when both have a pipe
+static int
+connect_pair(nng_socket a, nng_socket b, int t)
+{
+	char         url[128];
+	nng_listener l;
+	int          rv;
+	if (t != T_ABSTRACT) return vf_connect(a, b, t);
+	mk_url(t, url, sizeof(url));
+	if ((rv = nng_listen(a, url, &l, 0)) != 0) return rv;
+	if ((rv = nng_dial(b, url, NULL, 0)) != 0) return rv;
+	for (int i = 0; i < 4000; i++) {
+		if (vf_pipe_count(a) >= 1 && vf_pipe_count(b) >= 1) return 0;
+		vf_msleep(1);
+	}
+	return NNG_ETIMEDOUT;
 }
 
 // "No progress while the library is idle and every receiver keeps coming up
@@ -202,15 +257,21 @@ pipe_cb(nng_pipe p, nng_pipe_ev ev, void *arg)
 }
 
 static void
-tracker_init(tracker *t, nng_socket s)
+tracker_init_cb(tracker *t, nng_socket s, nng_pipe_cb cb)
 {
 	memset(t, 0, sizeof(*t));
 	pthread_mutex_init(&t->mtx, NULL);
-	if (nng_pipe_notify(s, NNG_PIPE_EV_ADD_PRE, pipe_cb, t) != 0 ||
-	    nng_pipe_notify(s, NNG_PIPE_EV_ADD_POST, pipe_cb, t) != 0 ||
-	    nng_pipe_notify(s, NNG_PIPE_EV_REM_POST, pipe_cb, t) != 0) {
+	if (nng_pipe_notify(s, NNG_PIPE_EV_ADD_PRE, cb, t) != 0 ||
+	    nng_pipe_notify(s, NNG_PIPE_EV_ADD_POST, cb, t) != 0 ||
+	    nng_pipe_notify(s, NNG_PIPE_EV_REM_POST, cb, t) != 0) {
 		vf_harness_fail("pipe_notify");
 	}
+}
+
+static void
+tracker_init(tracker *t, nng_socket s)
+{
+	tracker_init_cb(t, s, pipe_cb);
 }
 
 // number of established pipes; *pending = pipes between ADD_PRE and ADD_POST
@@ -252,8 +313,8 @@ static const char *ph_names[PH_NKINDS] = { "steady", "grow", "arrive", "depart-s
 // kinds in which a connection goes away while messages may be in flight
 static const bool ph_lossy_kind[PH_NKINDS] = { false, false, false, true, true, true, true };
 
-enum { SS_BLOCK = 0, SS_NONBLOCK, SS_AIO, SS_AIO_SHORT, SS_WINDOW, SS_N };
-static const char *ss_names[SS_N] = { "block", "nonblock", "aio", "aio-short", "aio-window" };
+enum { SS_BLOCK = 0, SS_NONBLOCK, SS_AIO, SS_AIO_SHORT, SS_WINDOW, SS_CANCEL, SS_N };
+static const char *ss_names[SS_N] = { "block", "nonblock", "aio", "aio-short", "aio-window", "aio-cancel" };
 enum { RS_TIMED = 0, RS_NONBLOCK, RS_AIO, RS_RING, RS_N };
 static const char *rs_names[RS_N] = { "timed", "nonblock", "aio", "aio-ring" };
 
@@ -273,6 +334,8 @@ typedef struct {
 	int          ring;          // RS_RING: receives kept outstanding at once
 	long         ring_multi;    // completions while another receive of the ring was pending
 	int          slow_permille; // probability of a pause after a receive
+	bool         cancels;       // RS_AIO: a third of the receives are cancelled after 0-1 ms
+	long         rcanceled, rcancel_late;
 	rrec        *recs;
 	size_t       n, cap;
 	_Atomic long idle; // receive attempts that found nothing
@@ -294,7 +357,7 @@ typedef struct {
 	uint8_t  *st;    // per seq: 0 not sent, 1 send returned 0, 2 send failed for good
 	uint8_t  *phase; // per seq: phase in which it was sent
 	long      quota; // for the current phase
-	long      eagain, timedout, giveup, attached_ok;
+	long      eagain, timedout, giveup, attached_ok, canceled, cancel_late, early_tmo, early_tmo_odd;
 	int       window;      // SS_WINDOW: sends kept outstanding at once
 	long      win_overlap; // submissions made while an earlier send of the window was pending
 	pthread_t th;
@@ -317,7 +380,8 @@ static struct {
 	tracker     ptr[MAXPUSH];
 	nng_listener plst[MAXPUSH];
 	char        purl[MAXPUSH][128]; // dial URL of a pusher (push-listens)
-	nng_dialer  dial[MAXPUSH][MAXPULL];
+	int         kpar; // pipes per (PUSH, PULL) pair: every pair is dialed kpar times
+	nng_dialer  dial[MAXPUSH][MAXPULL][MAXPAR];
 	bool        dial_ok[MAXPUSH][MAXPULL];
 	push_mirror *pm[MAXPUSH];
 	puller_t    pull[MAXPULL];
@@ -439,8 +503,25 @@ receiver_main(void *arg)
 		case RS_AIO:
 			nng_aio_set_timeout(aio, 15);
 			nng_socket_recv(q->s, aio);
-			nng_aio_wait(aio);
-			rv = nng_aio_result(aio);
+			if (q->cancels && vf_chance(&q->rng, 1, 3)) {
+				// nng_aio_cancel of a receive that may be pending, or
+				// being completed by an arriving message right now: either
+				// it fails with ECANCELED and the message stays where it
+				// was, or it completes with the message
+				if (vf_chance(&q->rng, 1, 2)) vf_usleep((int) vf_range(&q->rng, 10, 1000));
+				nng_aio_cancel(aio);
+				nng_aio_wait(aio);
+				rv = nng_aio_result(aio);
+				if (rv == NNG_ECANCELED) {
+					q->rcanceled++;
+					rv = NNG_ETIMEDOUT; // counts as an empty attempt
+				} else if (rv == 0) {
+					q->rcancel_late++;
+				}
+			} else {
+				nng_aio_wait(aio);
+				rv = nng_aio_result(aio);
+			}
 			if (rv == 0) {
 				m = nng_aio_get_msg(aio);
 				nng_aio_set_msg(aio, NULL);
@@ -501,6 +582,9 @@ sender_window(sender_t *s)
 	nng_msg   *mm[4];
 	uint64_t   sq[4];
 	bool       out[4] = { false, false, false, false };
+	bool       brief[4] = { false, false, false, false }; // submitted with a 1-3 ms timeout
+	uint64_t   t_sub[4] = { 0, 0, 0, 0 };
+	bool       prev_brief[4] = { false, false, false, false }; // the slot's previous send had a 1-3 ms timeout
 	long       submitted = 0;
 	for (int j = 0; j < n; j++) {
 		if (nng_aio_alloc(&a[j], NULL, NULL) != 0) vf_harness_fail("aio alloc");
@@ -522,12 +606,20 @@ sender_window(sender_t *s)
 				}
 				if (rv == NNG_ETIMEDOUT) {
 					s->timedout++;
-					if (!atomic_exchange(&long_block_seen, 1)) vf_stat("send_blocked_10s", 1);
+					// (an aio whose previous send expired can be timed out
+					// early by that expiry's late cancel call: a known
+					// finding of C02, not judged here)
+					if (!brief[j] && vf_now_ns() - t_sub[j] < 250000000ull) {
+						s->early_tmo++;
+						if (!prev_brief[j]) s->early_tmo_odd++;
+					}
+					if (!brief[j] && vf_now_ns() - t_sub[j] > 9ull * 1000000000ull && !atomic_exchange(&long_block_seen, 1)) vf_stat("send_blocked_10s", 1);
 				} else {
 					vf_violation("C06/backpressure/send-error", "send failed with %s (%d): neither accepted, EAGAIN nor ETIMEDOUT; style %s", nng_strerror(rv), rv, ss_names[s->style]);
 				}
 				s->st[sq[j]] = 2;
 			}
+			prev_brief[j] = brief[j];
 			nng_aio_set_msg(a[j], NULL);
 			s->phase[sq[j]] = (uint8_t) ph;
 		}
@@ -549,8 +641,13 @@ sender_window(sender_t *s)
 				break;
 			}
 		}
-		nng_aio_set_timeout(a[j], atomic_load(&long_block_seen) ? 300 : 10000);
+		// a third of the submissions may time out while blocked: such a send
+		// has failed for good (the message is freed here, never re-sent), so
+		// its tag must never be received
+		brief[j] = vf_chance(&s->rng, 1, 3);
+		nng_aio_set_timeout(a[j], brief[j] ? (nng_duration) vf_range(&s->rng, 1, 3) : atomic_load(&long_block_seen) ? 300 : 10000);
 		nng_aio_set_msg(a[j], mm[j]);
+		t_sub[j] = vf_now_ns();
 		nng_socket_send(sock, a[j]);
 		out[j] = true;
 		submitted++;
@@ -592,6 +689,7 @@ sender_main(void *arg)
 		vf_body_make(nng_msg_body(m), len, tag, seq);
 		uint64_t t0 = vf_now_ns();
 		int      rv;
+		int      ncancel = 0;
 		for (;;) {
 			switch (s->style) {
 			case SS_BLOCK:
@@ -604,8 +702,25 @@ sender_main(void *arg)
 				nng_aio_set_timeout(aio, s->style == SS_AIO_SHORT ? (nng_duration) vf_range(&s->rng, 1, 3) : atomic_load(&long_block_seen) ? 300 : 10000);
 				nng_aio_set_msg(aio, m);
 				nng_socket_send(sock, aio);
+				if (s->style == SS_CANCEL && ncancel < 40) {
+					// nng_aio_cancel of a send that may be blocked, accepted
+					// or being handed to a pipe right now; after 40 cancels
+					// of one message it is simply waited for
+					uint32_t w = vf_below(&s->rng, 4);
+					if (w == 1) sched_yield();
+					if (w >= 2) vf_usleep((int) vf_range(&s->rng, 20, 2000));
+					nng_aio_cancel(aio);
+				}
 				nng_aio_wait(aio);
 				rv = nng_aio_result(aio);
+				if (s->style == SS_CANCEL) {
+					if (rv == NNG_ECANCELED) {
+						ncancel++;
+						s->canceled++;
+					} else if (rv == 0) {
+						s->cancel_late++;
+					}
+				}
 				if (rv != 0) {
 					// failure must leave the message with the caller
 					if (nng_aio_get_msg(aio) != m) {
@@ -618,6 +733,7 @@ sender_main(void *arg)
 				break;
 			}
 			if (rv == 0) break;
+			if (rv == NNG_ECANCELED && s->style == SS_CANCEL) continue; // our own cancel: same message again
 			if (rv == NNG_EAGAIN || rv == NNG_ETIMEDOUT) {
 				if (rv == NNG_EAGAIN) s->eagain++; else s->timedout++;
 				if (rv == NNG_ETIMEDOUT && s->style != SS_AIO_SHORT && vf_now_ns() - t0 > 9ull * 1000000000ull && !atomic_exchange(&long_block_seen, 1)) {
@@ -718,14 +834,14 @@ settle(void)
 		long adds = 0, rems = 0;
 		for (int i = 0; i < C.npush; i++) {
 			int pe;
-			if (tracker_live(&C.ptr[i], &pe) != nl || pe) ok = false;
+			if (tracker_live(&C.ptr[i], &pe) != nl * C.kpar || pe) ok = false;
 			adds += atomic_load(&C.ptr[i].adds);
 			rems += atomic_load(&C.ptr[i].rems);
 		}
 		for (int j = 0; j < C.nslots; j++) {
 			int pe;
 			if (!C.pull[j].opened || C.pull[j].closed) continue;
-			if (tracker_live(&C.pull[j].tr, &pe) != C.npush || pe) ok = false;
+			if (tracker_live(&C.pull[j].tr, &pe) != C.npush * C.kpar || pe) ok = false;
 		}
 		if (rems > C.exp_rems) {
 			long d = rems - C.exp_rems;
@@ -781,6 +897,7 @@ add_puller(bool start_thread)
 	q->style         = (int) vf_below(&C.rng, RS_N);
 	q->ring          = (int) vf_range(&C.rng, 2, 4);
 	q->slow_permille = vf_chance(&C.rng, 1, 3) ? (int) vf_range(&C.rng, 5, 120) : 0;
+	q->cancels       = vf_chance(&C.rng, 1, 2);
 	q->opened        = true;
 	C.nslots++;
 	if (start_thread) {
@@ -791,19 +908,23 @@ add_puller(bool start_thread)
 	}
 	if (C.push_listens) {
 		for (int i = 0; i < C.npush; i++) {
-			if ((rv = nng_dial(q->s, C.purl[i], NULL, 0)) != 0) vf_harness_fail("dial %s: %s", C.purl[i], nng_strerror(rv));
+			for (int c = 0; c < C.kpar; c++) {
+				if ((rv = nng_dial(q->s, C.purl[i], NULL, 0)) != 0) vf_harness_fail("dial %s: %s", C.purl[i], nng_strerror(rv));
+			}
 		}
 	} else {
 		char durl[128];
-		vf_url(C.tran, q->url, sizeof(q->url));
+		mk_url(C.tran, q->url, sizeof(q->url));
 		if ((rv = nng_listen(q->s, q->url, &q->lst, 0)) != 0) vf_harness_fail("listen %s: %s", q->url, nng_strerror(rv));
-		if (vf_dial_url(q->lst, C.tran, q->url, durl, sizeof(durl)) != 0) vf_harness_fail("dial url");
+		if (mk_dial_url(q->lst, C.tran, q->url, durl, sizeof(durl)) != 0) vf_harness_fail("dial url");
 		for (int i = 0; i < C.npush; i++) {
-			if ((rv = nng_dial(C.push[i], durl, &C.dial[i][q->slot], 0)) != 0) vf_harness_fail("dial %s: %s", durl, nng_strerror(rv));
+			for (int c = 0; c < C.kpar; c++) {
+				if ((rv = nng_dial(C.push[i], durl, &C.dial[i][q->slot][c], 0)) != 0) vf_harness_fail("dial %s: %s", durl, nng_strerror(rv));
+			}
 			C.dial_ok[i][q->slot] = true;
 		}
 	}
-	C.exp_adds += C.npush;
+	C.exp_adds += C.npush * C.kpar;
 }
 
 static void
@@ -828,11 +949,11 @@ close_puller(int slot)
 	}
 	nng_socket_close(q->s);
 	q->closed = true;
-	C.exp_rems += C.npush;
+	C.exp_rems += C.npush * C.kpar;
 	if (!C.push_listens) {
 		for (int i = 0; i < C.npush; i++) {
 			if (C.dial_ok[i][slot]) {
-				nng_dialer_close(C.dial[i][slot]);
+				for (int c = 0; c < C.kpar; c++) nng_dialer_close(C.dial[i][slot][c]);
 				C.dial_ok[i][slot] = false;
 			}
 		}
@@ -990,12 +1111,21 @@ check_case(const char *topo)
 				nord++;
 			}
 			if (r->seq < ord[o].next) {
-				snprintf(key, sizeof(key), "C06/order/%s.%s", vf_tran_names[C.tran], ph_names[C.kinds[ph]]);
+				snprintf(key, sizeof(key), "C06/order/%s.%s", tn(C.tran), ph_names[C.kinds[ph]]);
 				vf_violation(key, "%s: puller %d got seq %llu of sender %d after seq %llu on the same pipe %u", topo, j, (unsigned long long) r->seq, sid, (unsigned long long) (ord[o].next - 1), r->pipe);
 			} else {
 				n_order++;
 			}
 			ord[o].next = r->seq + 1;
+		}
+		if (C.kpar > 1) {
+			// one sender's stream reached this puller through sibling pipes
+			for (int a = 0; a < nord; a++) {
+				int sib = 0;
+				for (int c = 0; c < a; c++) if (ord[c].sid == ord[a].sid) sib++;
+				if (sib == 1) vf_stat("streams_spread_over_sibling_pipes", 1);
+			}
+			vf_stat("received_over_parallel_pipes", (long) q->n);
 		}
 	}
 	for (int k = 0; k < C.nsend; k++) {
@@ -1004,7 +1134,7 @@ check_case(const char *topo)
 			int ph = s->phase[q];
 			if (s->st[q] == 1) n_ok++; else n_fail++;
 			if (cnt[k][q] > 1) {
-				snprintf(key, sizeof(key), "C06/duplicate/%s.%s", vf_tran_names[C.tran], ph_names[C.kinds[ph]]);
+				snprintf(key, sizeof(key), "C06/duplicate/%s.%s", tn(C.tran), ph_names[C.kinds[ph]]);
 				vf_violation(key, "%s: message (sender %d, seq %llu, phase %d %s) was received %d times", topo, k, (unsigned long long) q, ph, ph_names[C.kinds[ph]], cnt[k][q]);
 			}
 			if (cnt[k][q] >= 1 && s->st[q] != 1) {
@@ -1017,7 +1147,7 @@ check_case(const char *topo)
 					lost_allowed++;
 					lost_pp[ph][s->push]++;
 				} else {
-					snprintf(key, sizeof(key), "C06/lost/%s.%s", vf_tran_names[C.tran], ph_names[C.kinds[ph]]);
+					snprintf(key, sizeof(key), "C06/lost/%s.%s", tn(C.tran), ph_names[C.kinds[ph]]);
 					vf_violation(key, "%s: message (sender %d style %s, seq %llu) accepted by send in loss-free phase %d (%s) was never received although every connection stayed up", topo, k, ss_names[s->style], (unsigned long long) q, ph, ph_names[C.kinds[ph]]);
 				}
 			}
@@ -1038,7 +1168,7 @@ check_case(const char *topo)
 				vf_stat("departure_phase_pushers_without_removal", 1);
 				vf_stat("judged_strictly_in_departure_phases", sent_pp[ph][i]);
 				if (L > 0) {
-					snprintf(key, sizeof(key), "C06/lost/other-connection/%s.%s", vf_tran_names[C.tran], ph_names[C.kinds[ph]]);
+					snprintf(key, sizeof(key), "C06/lost/other-connection/%s.%s", tn(C.tran), ph_names[C.kinds[ph]]);
 					vf_violation(key, "%s: phase %d (%s): PUSH socket %d lost %ld accepted messages although none of its pipes was removed in this phase (pipes of other PUSH sockets departed)", topo, ph, ph_names[C.kinds[ph]], i, L);
 				}
 				continue;
@@ -1092,7 +1222,7 @@ try_shrink(int i)
 			vf_stat("shrinks_midflight", 1);
 			if (len > 0) vf_stat("shrinks_with_messages_queued", 1);
 			if (atomic_load(&C.senders_running) > 0) vf_stat("shrinks_with_senders_parked", 1);
-			vf_class("shrink/%s/from%d/to%d/queued%d", vf_tran_names[C.tran], cap > 12 ? 12 : cap, ncap > 12 ? 12 : ncap, len > 12 ? 12 : len);
+			vf_class("shrink/%s/from%d/to%d/queued%d", tn(C.tran), cap > 12 ? 12 : cap, ncap > 12 ? 12 : ncap, len > 12 ? 12 : len);
 			done = true;
 		}
 	} else {
@@ -1100,6 +1230,28 @@ try_shrink(int i)
 	}
 	atomic_store(&C.gate, 0);
 	return done;
+}
+
+// One resize of a random PUSH socket's send buffer inside a phase in which a
+// puller arrives or a connection departs (growth; or shrink-to-at-least-the-
+// fill when senders can be expected to reach the gate).
+static void
+resize_mixed(bool may_shrink, const char *when)
+{
+	vf_rng *r = &C.rng;
+	int     i = (int) vf_below(r, (uint32_t) C.npush);
+	int     rv;
+	bool    shrunk = false;
+	if (may_shrink && vf_chance(r, 1, 3)) shrunk = try_shrink(i);
+	if (!shrunk) {
+		C.depth[i] += (int) vf_range(r, 1, 3);
+		if ((rv = nng_socket_set_int(C.push[i], NNG_OPT_SENDBUF, C.depth[i])) != 0) vf_harness_fail("sendbuf grow: %s", nng_strerror(rv));
+	}
+	vf_stat("resizes_midflight", 1);
+	vf_stat("resizes_in_phase_with_arrival_or_departure", 1);
+	if (live_pullers() == 0) vf_stat("resizes_with_no_puller_attached", 1);
+	if (atomic_load(&C.senders_running) > 0) vf_stat("resizes_mixed_with_senders_running", 1);
+	vf_class("resize-mixed/%s/%s/%s/%s", tn(C.tran), ph_names[C.kinds[C.cur_phase]], when, shrunk ? "shrink" : "grow");
 }
 
 static void
@@ -1115,8 +1267,8 @@ run_flow_case(long idx)
 	vf_rng_seed(r, vf_seed, (uint64_t) idx);
 	C.salt         = (uint32_t) (vf_rand(r) & 0xfff);
 	{
-		uint32_t x = vf_below(r, 10); // inproc, ipc, tcp 3/10 each, ws 1/10
-		C.tran     = x >= 9 ? VF_T_WS : (int) (x / 3);
+		uint32_t x = vf_below(r, 20); // inproc 5/20, ipc 4/20, tcp 5/20, ws 3/20, abstract 3/20
+		C.tran     = x >= 17 ? T_ABSTRACT : x >= 14 ? VF_T_WS : x >= 9 ? VF_T_TCP : x >= 5 ? VF_T_IPC : VF_T_INPROC;
 	}
 	C.npush        = (int) vf_range(r, 1, MAXPUSH);
 	C.npull0       = (int) vf_range(r, 0, 4);
@@ -1138,8 +1290,12 @@ run_flow_case(long idx)
 	int target = (int) vf_below(r, 5);
 	C.raw_push = vf_chance(r, 1, 8);
 	C.raw_pull = vf_chance(r, 1, 8);
+	// 1/4 of the cases: 2-3 pipes between every PUSH and PULL socket, so that
+	// one sender's stream is spread over sibling pipes into the same puller
+	C.kpar     = vf_chance(r, 1, 4) ? (int) vf_range(r, 2, MAXPAR) : 1;
+	bool rz_mix = vf_chance(r, 1, 2); // resizes also inside arrival / departure phases
 
-	snprintf(topo, sizeof(topo), "%s %dpush(%s)x%dpull spp=%d", vf_tran_names[C.tran], C.npush, C.push_listens ? "listen" : "dial", C.npull0, spp);
+	snprintf(topo, sizeof(topo), "%s %dpush(%s)x%dpull spp=%d k=%d", tn(C.tran), C.npush, C.push_listens ? "listen" : "dial", C.npull0, spp, C.kpar);
 	vf_case_begin(idx, "flow %s phases=%d msgs=%ld jitter=%d/%dus target=%d", topo, C.nphase, total, jit_pm, jit_us, target);
 
 	vf_pt_off();
@@ -1164,9 +1320,9 @@ run_flow_case(long idx)
 		C.pm[i] = wb_struct_ok ? wb_get(C.push[i]) : NULL;
 		if (C.push_listens) {
 			char url[128];
-			vf_url(C.tran, url, sizeof(url));
+			mk_url(C.tran, url, sizeof(url));
 			if ((rv = nng_listen(C.push[i], url, &C.plst[i], 0)) != 0) vf_harness_fail("listen %s: %s", url, nng_strerror(rv));
-			if (vf_dial_url(C.plst[i], C.tran, url, C.purl[i], sizeof(C.purl[i])) != 0) vf_harness_fail("dial url");
+			if (mk_dial_url(C.plst[i], C.tran, url, C.purl[i], sizeof(C.purl[i])) != 0) vf_harness_fail("dial url");
 		}
 	}
 	for (int j = 0; j < C.npull0; j++) add_puller(true);
@@ -1225,10 +1381,13 @@ run_flow_case(long idx)
 			break;
 		case PH_ARRIVE:
 			progress(ph, phq / 3, live_pullers() ? 100 : 30);
+			if (rz_mix) resize_mixed(live_pullers() > 0, live_pullers() ? "before-arrival" : "no-puller");
 			add_puller(vf_chance(r, 3, 4));
+			if (rz_mix) resize_mixed(false, "after-arrival");
 			if (C.nslots < MAXPULL - 2 && vf_chance(r, 1, 3)) {
 				progress(ph, phq * 2 / 3, 100);
 				add_puller(true);
+				if (rz_mix) resize_mixed(true, "after-arrival");
 			}
 			vf_stat("arrivals_midflight", 1);
 			break;
@@ -1237,7 +1396,9 @@ run_flow_case(long idx)
 				progress(ph, phq / 2, 100);
 				C.lossy[ph] = true;
 				if (atomic_load(&C.senders_running) > 0) vf_stat("departures_with_senders_running", 1);
+				if (rz_mix) resize_mixed(true, "before-departure");
 				close_puller(pick_live_puller());
+				if (rz_mix) resize_mixed(true, "after-departure");
 				vf_stat("puller_closes_midflight", 1);
 			}
 			break;
@@ -1251,7 +1412,11 @@ run_flow_case(long idx)
 				close_puller(pick_live_puller());
 				wait_rems();
 				if (vf_chance(r, 1, 2)) vf_usleep((int) vf_range(r, 100, 3000));
+				// possibly with no pipe at all and every sender blocked:
+				// the new room goes to the blocked senders
+				if (rz_mix) resize_mixed(false, live_pullers() ? "between-departure-and-arrival" : "no-puller");
 				add_puller(true);
+				if (rz_mix) resize_mixed(false, "after-arrival");
 				vf_stat("puller_closes_midflight", 1);
 				vf_stat("arrivals_midflight", 1);
 			}
@@ -1272,7 +1437,9 @@ run_flow_case(long idx)
 					C.exp_rems++;
 					C.exp_adds++;
 					ev++;
+					if (rz_mix && vf_chance(r, 1, 2)) resize_mixed(false, "pipe-closing");
 					wait_rems();
+					if (rz_mix && vf_chance(r, 1, 2)) resize_mixed(true, "after-departure");
 				}
 			}
 			vf_stat("pipe_closes_midflight", ev);
@@ -1301,7 +1468,7 @@ run_flow_case(long idx)
 			// reported per tag by check_case(); remember that the drain
 			// gave up so that a late arrival is still a finding
 			char key[160];
-			snprintf(key, sizeof(key), "C06/lost/undelivered-at-quiescence/%s.%s", vf_tran_names[C.tran], ph_names[kind]);
+			snprintf(key, sizeof(key), "C06/lost/undelivered-at-quiescence/%s.%s", tn(C.tran), ph_names[kind]);
 			vf_violation(key, "%s: phase %d (%s): %ld messages accepted, %ld received, no progress for 10 s with idle library and waiting receivers, every connection up", topo, ph, ph_names[kind], atomic_load(&C.ph_sent[ph]), atomic_load(&C.ph_recv[ph]));
 		}
 		// pipe removals seen on each PUSH socket since the previous phase
@@ -1312,7 +1479,12 @@ run_flow_case(long idx)
 			C.rems_seen[i]   = now;
 		}
 		vf_stat(C.lossy[ph] ? "departure_phases" : "lossfree_phases", 1);
-		vf_class("phase/%s/%s/p%dq%d/%s", vf_tran_names[C.tran], ph_names[kind], C.npush, live_pullers(), C.lossy[ph] ? (atomic_load(&C.ph_recv[ph]) < atomic_load(&C.ph_sent[ph]) ? "some-lost" : "all-arrived") : "conserved");
+		{
+			char pkey[64];
+			snprintf(pkey, sizeof(pkey), "%s/%s", C.lossy[ph] ? "departure_phases" : "lossfree_phases", tn(C.tran));
+			vf_stat(pkey, 1);
+		}
+		vf_class("phase/%s/%s/p%dq%d/%s", tn(C.tran), ph_names[kind], C.npush, live_pullers(), C.lossy[ph] ? (atomic_load(&C.ph_recv[ph]) < atomic_load(&C.ph_sent[ph]) ? "some-lost" : "all-arrived") : "conserved");
 		vf_watchdog(180);
 	}
 
@@ -1334,17 +1506,30 @@ run_flow_case(long idx)
 
 	check_case(topo);
 
-	long eag = 0, tmo = 0, giveup = 0, att = 0;
+	long eag = 0, tmo = 0, giveup = 0, att = 0, can = 0, canlate = 0;
 	for (int k = 0; k < C.nsend; k++) {
 		sender_t *s = &C.snd[k];
+		char      skey[64];
 		eag += s->eagain; tmo += s->timedout; giveup += s->giveup; att += s->attached_ok;
+		can += s->canceled; canlate += s->cancel_late;
+		if (s->early_tmo) vf_stat("window_send_timed_out_before_its_deadline", s->early_tmo);
+		if (s->early_tmo_odd) vf_stat("window_send_timed_out_early_though_previous_send_had_long_timeout", s->early_tmo_odd);
+		snprintf(skey, sizeof(skey), "senders/%s", ss_names[s->style]);
+		vf_stat(skey, 1);
 		if (s->style == SS_WINDOW) vf_stat("window_sends_submitted_behind_pending_send", s->win_overlap);
-		vf_class("sender/%s/%s/%s%s", vf_tran_names[C.tran], ss_names[s->style], s->eagain ? "eagain" : "", s->timedout ? "timedout" : "");
+		vf_class("sender/%s/%s/%s%s", tn(C.tran), ss_names[s->style], s->eagain ? "eagain" : "", s->timedout ? "timedout" : "");
 		free(s->st);
 		free(s->phase);
 	}
 	for (int j = 0; j < C.nslots; j++) {
-		vf_class("receiver/%s/%s/%s", vf_tran_names[C.tran], rs_names[C.pull[j].style], C.pull[j].n ? "got" : "none");
+		vf_class("receiver/%s/%s/%s", tn(C.tran), rs_names[C.pull[j].style], C.pull[j].n ? "got" : "none");
+		{
+			char rkey[64];
+			snprintf(rkey, sizeof(rkey), "receivers/%s", rs_names[C.pull[j].style]);
+			vf_stat(rkey, 1);
+		}
+		vf_stat("recv_canceled", C.pull[j].rcanceled);
+		vf_stat("recv_completed_despite_cancel", C.pull[j].rcancel_late);
 		if (C.pull[j].style == RS_RING) {
 			vf_stat("ring_received", (long) C.pull[j].n);
 			vf_stat("ring_received_with_other_receive_pending", C.pull[j].ring_multi);
@@ -1355,11 +1540,22 @@ run_flow_case(long idx)
 	vf_stat("send_timedout", tmo);
 	vf_stat("failed_send_msg_still_attached", att);
 	vf_stat("send_giveups", giveup);
+	vf_stat("send_canceled_msg_still_attached", can);
+	vf_stat("send_completed_despite_cancel", canlate);
 	vf_stat("unplanned_departures", C.unplanned);
 	vf_stat("cases", 1);
-	vf_class("topo/%s/%dx%d/%s%s%s", vf_tran_names[C.tran], C.npush, C.npull0, C.push_listens ? "push-listens" : "pull-listens", C.raw_push ? "/raw-push" : "", C.raw_pull ? "/raw-pull" : "");
+	vf_class("topo/%s/%dx%d/%s%s%s", tn(C.tran), C.npush, C.npull0, C.push_listens ? "push-listens" : "pull-listens", C.raw_push ? "/raw-push" : "", C.raw_pull ? "/raw-pull" : "");
 	if (C.raw_push || C.raw_pull) vf_stat("cases_with_raw_sockets", 1);
 	if (C.tran == VF_T_WS) vf_stat("cases_over_ws", 1);
+	if (C.kpar > 1) {
+		vf_stat("cases_with_parallel_pipes", 1);
+		vf_class("parallel/%s/k%d/%dx%d", tn(C.tran), C.kpar, C.npush, C.npull0);
+	}
+	{
+		char key[64];
+		snprintf(key, sizeof(key), "cases/%s", tn(C.tran));
+		vf_stat(key, 1);
+	}
 	if ((idx & 3) == 0) {
 		vf_sample("{\"mode\":\"flow\",\"topology\":\"%s\",\"phases\":%d,\"first_kind\":\"%s\",\"sent_ok\":%ld,\"received\":%ld,\"eagain\":%ld,\"timedout\":%ld}", topo, C.nphase, ph_names[C.kinds[0]],
 		    atomic_load(&C.ph_sent[0]) + atomic_load(&C.ph_sent[1]) + atomic_load(&C.ph_sent[2]) + atomic_load(&C.ph_sent[3]) + atomic_load(&C.ph_sent[4]),
@@ -1390,7 +1586,29 @@ typedef struct {
 	uint64_t   order[BP_MAXMSG]; // accepted/blocked, in send order
 	int        norder;
 	const char *cls;
+	tracker    ptr;     // pipes of the PUSH socket
+	tracker    itr[2];  // pipes of the idle pullers
+	long       order_checked;
 } bpctx;
+
+// While set, every pipe that arrives at the PUSH socket is refused before the
+// protocol sees it (closing a pipe in ADD_PRE is the documented way): after a
+// pipe of an idle puller was closed its dialer must not bring a fresh pipe
+// (which would rightly take messages out of the buffer) before the state
+// after the departure has been looked at.
+static _Atomic int  bp_reject;
+static _Atomic long bp_rejected;
+
+static void
+bp_push_pipe_cb(nng_pipe p, nng_pipe_ev ev, void *arg)
+{
+	if (ev == NNG_PIPE_EV_ADD_PRE && atomic_load(&bp_reject)) {
+		atomic_fetch_add(&bp_rejected, 1);
+		nng_pipe_close(p);
+		return;
+	}
+	pipe_cb(p, ev, arg);
+}
 
 static nng_msg *
 bp_msg(bpctx *b, int st, vf_rng *r)
@@ -1495,14 +1713,22 @@ bp_probes(bpctx *b, vf_rng *r)
 	nng_aio_free(aio);
 }
 
+// Receives (NONBLOCK, all pullers in turn) until at least 'atleast' messages
+// have come and, at quiescence, every puller came up empty twice.
 static void
-bp_receive_all(bpctx *b, nng_socket *pulls, int npulls, int expect)
+bp_receive_all(bpctx *b, nng_socket *pulls, int npulls, int atleast)
 {
 	int      got           = 0;
 	uint64_t last_progress = vf_now_ns();
-	uint64_t next[3]       = { 0, 0, 0 }; // per puller: highest seq seen + 1
-	int      nextst[3]     = { 0, 0, 0 };
-	int      empties       = 0;
+	// per (puller, pipe): highest seq seen + 1.  A puller has one pipe, and a
+	// second one when its pipe was closed and its dialer came back.
+	struct {
+		int      j;
+		uint32_t pipe;
+		uint64_t next;
+	} ord[16];
+	int nord    = 0;
+	int empties = 0;
 	for (;;) {
 		bool any = false;
 		for (int j = 0; j < npulls; j++) {
@@ -1515,17 +1741,31 @@ bp_receive_all(bpctx *b, nng_socket *pulls, int npulls, int expect)
 			if (vf_body_check(nng_msg_body(m), nng_msg_len(m), &tag, &seq) != 0 || tag != b->tag || seq >= (uint64_t) b->nm) {
 				vf_violation("C06/phantom", "%s: received a message that was never sent", b->cls);
 			} else {
+				uint32_t pid = (uint32_t) nng_pipe_id(nng_msg_get_pipe(m));
+				int      o;
 				b->m[seq].got++;
 				got++;
-				// one pipe per puller: what a puller gets follows send
-				// order.  Sends that were pending at the same time
-				// (the blocked aios) are not ordered among themselves.
-				if (seq < next[j] && !(b->m[seq].st == 3 && nextst[j] == 3)) {
-					vf_violation("C06/order/bp", "%s: puller %d received seq %llu after seq %llu on one connection", b->cls, j, (unsigned long long) seq, (unsigned long long) (next[j] - 1));
+				// What one connection carries follows send order.  All
+				// sends of a bp stage are made by one thread one after the
+				// other, the blocked aios too (submission order, as for the
+				// window senders of flow mode).
+				for (o = 0; o < nord; o++) {
+					if (ord[o].j == j && ord[o].pipe == pid) break;
 				}
-				if (seq + 1 > next[j]) {
-					next[j]   = seq + 1;
-					nextst[j] = b->m[seq].st;
+				if (o == nord && nord < 16) {
+					ord[nord].j    = j;
+					ord[nord].pipe = pid;
+					ord[nord].next = 0;
+					nord++;
+				}
+				if (o < nord) {
+					if (seq < ord[o].next) {
+						vf_violation(b->m[seq].st == 3 ? "C06/order/bp-blocked-sends" : "C06/order/bp", "%s: puller %d received seq %llu (%s) after seq %llu on one connection", b->cls, j, (unsigned long long) seq, b->m[seq].st == 3 ? "a send that was blocked" : "accepted at once", (unsigned long long) (ord[o].next - 1));
+					} else {
+						b->order_checked++;
+						if (b->m[seq].st == 3) vf_stat("bp_blocked_sends_order_checked", 1);
+					}
+					if (seq + 1 > ord[o].next) ord[o].next = seq + 1;
 				}
 			}
 			nng_msg_free(m);
@@ -1536,7 +1776,7 @@ bp_receive_all(bpctx *b, nng_socket *pulls, int npulls, int expect)
 			continue;
 		}
 		if (vf_quiesce(2, 200)) empties++;
-		if (empties >= 2 && got >= expect) break;
+		if (empties >= 2 && got >= atleast) break;
 		if (empties >= 2 && vf_now_ns() - last_progress > stuck_ns()) {
 			loss_seen = true;
 			break;
@@ -1552,14 +1792,14 @@ run_bp_case(long idx)
 {
 	vf_rng r;
 	vf_rng_seed(&r, vf_seed, (uint64_t) idx);
-	int  tran    = (int) vf_below(&r, 4); // inproc, ipc, tcp, ws
-	int  nidle   = vf_chance(&r, 1, 3) ? (int) vf_range(&r, 1, 2) : 0;
+	int  tran    = (int) vf_below(&r, T_N); // inproc, ipc, tcp, ws, socket://, abstract
+	int  nidle   = vf_chance(&r, 1, 2) ? (int) vf_range(&r, 1, 2) : 0;
 	bool incr    = vf_chance(&r, 1, 3);
 	int  nblock  = (int) vf_range(&r, 1, 3);
 	int  jit_pm  = vf_chance(&r, 1, 2) ? (int) vf_range(&r, 2, 30) : 0;
 	int  accepted[BP_MAXD + 1];
 	char cls[96];
-	snprintf(cls, sizeof(cls), "%s idle-pullers=%d %s blocked=%d", vf_tran_names[tran], nidle, incr ? "grow-in-place" : "fresh-socket-per-depth", nblock);
+	snprintf(cls, sizeof(cls), "%s idle-pullers=%d %s blocked=%d", tn(tran), nidle, incr ? "grow-in-place" : "fresh-socket-per-depth", nblock);
 	vf_case_begin(idx, "bp %s jitter=%d", cls, jit_pm);
 	vf_pt_off();
 	if (jit_pm) vf_pt_jitter(vf_seed + (uint64_t) idx, jit_pm, 100);
@@ -1579,15 +1819,26 @@ run_bp_case(long idx)
 		sock_common(b->push);
 		nng_socket_set_ms(b->push, NNG_OPT_SENDTIMEO, 10000);
 		if (d > 0 || vf_chance(&r, 1, 2)) nng_socket_set_int(b->push, NNG_OPT_SENDBUF, d);
+		atomic_store(&bp_reject, 0);
+		tracker_init_cb(&b->ptr, b->push, bp_push_pipe_cb);
 		// idle pullers: attached over inproc, never receiving until the end
 		for (int j = 0; j < nidle; j++) {
 			if (nng_pull0_open(&b->idle[j]) != 0) vf_harness_fail("open");
 			sock_common(b->idle[j]);
+			// an idle puller whose pipe is closed below comes back late
+			// (after a random part of this) or not at all in this stage
+			nng_socket_set_ms(b->idle[j], NNG_OPT_RECONNMINT, 3000);
+			nng_socket_set_ms(b->idle[j], NNG_OPT_RECONNMAXT, 3000);
+			tracker_init(&b->itr[j], b->idle[j]);
 			if ((rv = vf_connect(b->push, b->idle[j], VF_T_INPROC)) != 0) vf_harness_fail("connect: %s", nng_strerror(rv));
 		}
 		if (nidle) {
-			// both pipes established on the PUSH side
-			for (int w = 0; w < 5000 && vf_pipe_count(b->push) < nidle; w++) vf_msleep(1);
+			// all pipes established on the PUSH side (the protocol has them)
+			uint64_t t1 = vf_now_ns() + 30ull * 1000000000ull;
+			while (tracker_live(&b->ptr, NULL) < nidle) {
+				if (vf_now_ns() > t1) vf_harness_fail("bp: idle pullers did not connect");
+				vf_msleep(1);
+			}
 		}
 		// shrink-to-fit: a deeper buffer holding exactly d messages is shrunk
 		// to depth d (nothing queued beyond the new depth, so nothing may
@@ -1618,7 +1869,7 @@ run_bp_case(long idx)
 				if (more != g) {
 					vf_violation("C06/backpressure/depth-differential/grow-in-place", "%s: SENDBUF grown by %d to %d on a full socket: %d more NONBLOCK sends accepted (accepted at depth 0: %d)", cls, g, d, more, a0);
 				} else {
-					vf_class("bp/grow/%s/idle%d/to-depth%d/+%d", vf_tran_names[tran], nidle, d, g);
+					vf_class("bp/grow/%s/idle%d/to-depth%d/+%d", tn(tran), nidle, d, g);
 				}
 			}
 		}
@@ -1659,16 +1910,84 @@ run_bp_case(long idx)
 		// ones wake up): everything accepted and every blocked send must come out
 		nng_socket pulls[3];
 		int        npulls = 0;
-		if (nidle == 0 || vf_chance(&r, 1, 2)) {
+		// Departure with the buffer full and senders blocked (idle pullers are
+		// inproc): the first total_acc - d accepted messages are the ones bound
+		// to pipes (2 per idle pipe: one parked in the puller, one in the PUSH
+		// pipe's send), the next d sit in the buffer, the blocked ones wait
+		// behind it.  One idle puller's connection goes away: nothing that was
+		// buffered or blocked may be lost or completed by that, only messages
+		// bound to the departed pipe (at most 2) may be missing at the end.
+		bool        depart  = nidle > 0 && vf_chance(&r, 3, 4);
+		int         how     = (int) vf_below(&r, 3);
+		int         victim  = (int) vf_below(&r, (uint32_t) (nidle ? nidle : 1));
+		static const char *how_names[3] = { "pipe-closed-by-push", "pipe-closed-by-pull", "puller-socket-closed" };
+		int         base    = total_acc - d; // order[] index of the first buffered message
+		bool        gone[2] = { false, false };
+		if (depart) {
+			nng_pipe vp;
+			long     rem0 = atomic_load(&b->ptr.rems) + atomic_load(&b->ptr.aborted);
+			bool     done = false;
+			atomic_store(&bp_reject, 1);
+			switch (how) {
+			case 0:
+				done = tracker_pick(&b->ptr, &r, &vp) && nng_pipe_close(vp) == 0;
+				break;
+			case 1:
+				done = tracker_pick(&b->itr[victim], &r, &vp) && nng_pipe_close(vp) == 0;
+				break;
+			default:
+				nng_socket_close(b->idle[victim]);
+				gone[victim] = true;
+				done         = true;
+				break;
+			}
+			if (!done) vf_harness_fail("bp: no pipe to close (%s)", how_names[how]);
+			uint64_t t1 = vf_now_ns() + 30ull * 1000000000ull;
+			while (atomic_load(&b->ptr.rems) + atomic_load(&b->ptr.aborted) <= rem0) {
+				if (vf_now_ns() > t1) vf_harness_fail("bp: pipe departure not observed on the PUSH side (%s)", how_names[how]);
+				vf_usleep(200);
+			}
+			if (!vf_quiesce(2, 10000)) vf_harness_fail("no quiescence");
+			for (int k = 0; k < nblock; k++) {
+				if (nng_aio_busy(blk[k])) {
+					vf_stat("bp_blocked_send_still_pending_after_departure", 1);
+					continue;
+				}
+				int  brv = nng_aio_result(blk[k]);
+				char key[128];
+				if (brv == 0) {
+					snprintf(key, sizeof(key), "C06/backpressure/blocked-send-completed-by-departure/%s", how_names[how]);
+					vf_violation(key, "%s: depth %d: a send blocked on the full buffer completed with 0 when a pipe departed (%s, %d idle pipes before) although the buffer is still full and no puller is receiving", cls, d, how_names[how], nidle);
+				} else {
+					vf_violation("C06/backpressure/send-error", "%s: depth %d: blocked send with 30 s timeout failed with %s when a pipe departed (%s)", cls, d, ename(brv), how_names[how]);
+				}
+			}
+			if (wb_ok) {
+				push_mirror *pm = wb_get(b->push);
+				int          cap, len, ready, waiting;
+				if (pm) {
+					wb_sample(pm, &cap, &len, &ready, &waiting);
+					if (ready >= 0 && waiting >= 0) vf_class("bp-after-departure/%s/idle%d/depth%d/queued%d/ready%d/waiting%d", how_names[how], nidle, cap, len, ready, waiting);
+				}
+			}
+			atomic_store(&bp_reject, 0);
+			vf_stat("bp_departures_with_full_buffer", 1);
+			if (nidle == 1) vf_stat("bp_departures_of_last_pipe", 1);
+			vf_stat("bp_departure_buffered_msgs_judged", d + nblock);
+			vf_class("bp/departure/%s/idle%d/depth%d/blocked%d", how_names[how], nidle, d, nblock);
+		}
+		if (nidle == 0 || depart || vf_chance(&r, 1, 2)) {
 			nng_socket q;
 			if (nng_pull0_open(&q) != 0) vf_harness_fail("open");
 			sock_common(q);
-			if ((rv = vf_connect(b->push, q, tran)) != 0) vf_harness_fail("connect %s: %s", vf_tran_names[tran], nng_strerror(rv));
+			if ((rv = connect_pair(b->push, q, tran)) != 0) vf_harness_fail("connect %s: %s", tn(tran), nng_strerror(rv));
 			pulls[npulls++] = q;
 		}
-		for (int j = 0; j < nidle; j++) pulls[npulls++] = b->idle[j];
+		for (int j = 0; j < nidle; j++) {
+			if (!gone[j]) pulls[npulls++] = b->idle[j];
+		}
 		int expect = total_acc + nblock;
-		bp_receive_all(b, pulls, npulls, expect);
+		bp_receive_all(b, pulls, npulls, depart ? expect - 2 : expect);
 		for (int k = 0; k < nblock; k++) {
 			// everything was received, so the hand-off has happened
 			uint64_t t1 = vf_now_ns() + 10ull * 1000000000ull;
@@ -1689,14 +2008,36 @@ run_bp_case(long idx)
 			}
 			nng_aio_free(blk[k]);
 		}
-		long lost = 0, dup = 0, ghost = 0;
+		long lost = 0, dup = 0, ghost = 0, lost_bound = 0;
 		for (int x = 0; x < b->nm; x++) {
 			if (b->m[x].st == 2 && b->m[x].got) ghost++;
-			if (b->m[x].st != 2 && b->m[x].got == 0) lost++;
 			if (b->m[x].got > 1) dup++;
 		}
+		for (int o = 0; o < b->norder; o++) {
+			bpmsg *bm1 = &b->m[b->order[o]];
+			if (bm1->st == 2 || bm1->got) continue;
+			// bound to a pipe when the connection went away?
+			if (depart && o < base) lost_bound++; else lost++;
+		}
 		if (ghost) vf_violation("C06/backpressure/failed-send-delivered/bp", "%s: depth %d: %ld messages whose send was refused or timed out (kept by the caller) were nevertheless received", cls, d, ghost);
-		if (lost) vf_violation("C06/lost/bp", "%s: depth %d: %ld of %d accepted/blocked messages never received after a puller arrived (silent discard)", cls, d, lost, expect);
+		if (lost && depart) {
+			char key[128];
+			snprintf(key, sizeof(key), "C06/lost/buffered-at-departure/%s", how_names[how]);
+			vf_violation(key, "%s: depth %d: %ld of the %d messages that were in the send buffer or belonged to blocked senders when a pipe departed (%s, %d idle pipes before) were never received", cls, d, lost, d + nblock, how_names[how], nidle);
+		} else if (lost) {
+			vf_violation("C06/lost/bp", "%s: depth %d: %ld of %d accepted/blocked messages never received after a puller arrived (silent discard)", cls, d, lost, expect);
+		}
+		if (lost_bound > 2) {
+			char key[128];
+			snprintf(key, sizeof(key), "C06/lost/more-than-in-flight/bp.%s", how_names[how]);
+			vf_violation(key, "%s: depth %d: %ld accepted messages missing after one inproc pipe departed (%s): at most 2 can be bound to it", cls, d, lost_bound, how_names[how]);
+		}
+		if (depart) {
+			vf_stat_max("bp_max_lost_with_departed_pipe", lost_bound);
+			vf_stat("bp_lost_with_departed_pipe", lost_bound);
+		}
+		lost += lost_bound;
+		vf_stat("order_checked", b->order_checked);
 		if (dup) vf_violation("C06/duplicate/bp", "%s: depth %d: %ld messages received more than once", cls, d, dup);
 		vf_stat("received", expect - lost);
 		vf_stat("sent_ok", expect);
@@ -1712,7 +2053,7 @@ run_bp_case(long idx)
 				snprintf(key, sizeof(key), "C06/backpressure/depth-differential/idle%d", nidle);
 				vf_violation(key, "%s: SENDBUF %d accepted %d NONBLOCK sends with no receiving puller; depth 0 accepted %d, so %d expected", cls, d, accepted[d], accepted[0], accepted[0] + d);
 			} else {
-				vf_class("bp/fresh/%s/idle%d/depth%d/base%d", vf_tran_names[tran], nidle, d, accepted[0]);
+				vf_class("bp/fresh/%s/idle%d/depth%d/base%d", tn(tran), nidle, d, accepted[0]);
 			}
 		}
 	}
